@@ -327,7 +327,6 @@ def check_document(st, defs_list, metas, phys, configs, diff: Dict[Any, Any], sa
         for n in model["offsets"][r]:
             def_form[n] = form_tag(phys[r])
     desc = {"defs": [list(d) for d in defs_list], "metas": list(metas), "phys": [[f, p, e, list(w)] for f, p, e, w in phys]}
-    logical = (tuple(defs_list), tuple(metas))
     logical_nums = [n for n in sorted(exp["values"]) if n < 40]
     st.states += 1
     first_obs = None
